@@ -209,7 +209,7 @@ JudgeDecapQ(e, rx, q, crc) ==
         \cup V(wf /\ kind = "end" /\ r.t = "completed" /\ g.open =>
                   /\ r.pdu = A /\ r.meta.pdu_len = Len(A)
                   /\ r.meta.label = g.first.label /\ r.meta.ptype = g.first.ptype /\ r.meta.exts = g.first.exts,
-               <<"C03">>, "Rx.DeliveredIsConcatenation")
+               PP(<<"C03">>), "Rx.DeliveredIsConcatenation")
         \cup V(kind = "end" /\ r.t = "completed" => ~g.done, <<"C07", "C02">>, "Rx.ExactlyOnce")
         \* (a train that verifies under the specification's CRC must be delivered: if it is not, the receiver's
         \* own length / CRC recomputation is at fault - C12 for the CRC arguments)
